@@ -51,18 +51,25 @@ func verifReplyCount(b *verifNatsBroker, subject string) int {
 func VerifC20_ShutdownDrains() {
 	b := newVerifBroker()
 	cfg := verifParam()
+	subjects := []string{"svc"}
+	if cfg >= 6 {
+		// a server listening on two subjects (one NATS subscription each)
+		cfg -= 6
+		subjects = []string{"svc", "svc2"}
+		verifReach("two-subjects")
+	}
 	workers, queue := uint(1+cfg/3), uint(cfg%3)
 	proc := &verifCountProcessor{processed: map[byte]int{}, slow: verifChoice(2) == 1}
-	srv := NewFNatsServerBuilder(&nats.Conn{}, proc, NewFProtocolFactory(thrift.NewTBinaryProtocolFactoryDefault()), []string{"svc"}).
+	srv := NewFNatsServerBuilder(&nats.Conn{}, proc, NewFProtocolFactory(thrift.NewTBinaryProtocolFactoryDefault()), subjects).
 		WithWorkerCount(workers).WithQueueLength(queue).Build()
 	served := make(chan error, 1)
 	go func() { served <- srv.Serve() }()
-	verifBlockUntil(func() bool { return len(b.subs) == 1 })
+	verifBlockUntil(func() bool { return len(b.subs) == len(subjects) })
 
 	before := 1 + verifChoice(verifBound())
 	replies := []string{"r0", "r1", "r2", "r3"}
 	for i := 0; i < before; i++ {
-		b.inject("svc", replies[i], []byte{0, 0, 0, 1, byte(i)})
+		b.inject(subjects[i%len(subjects)], replies[i], []byte{0, 0, 0, 1, byte(i)})
 	}
 	stopped := make(chan error, 1)
 	go func() { stopped <- srv.Stop() }()
